@@ -7,6 +7,8 @@ import DimModel.Spec.C02
 import DimModel.Spec.C07
 import DimModel.Lib.Init
 import DimModel.Lib.Reshape
+import DimModel.Lib.Operation
+import DimModel.Lib.Join
 open Lean
 namespace DimModel.Driver
 open DimModel.Codec
@@ -130,6 +132,38 @@ def handle (op : String) (req : Json) : P (List (String × Json)) := do
     | "broadcast_arrays" => pure [("lib", encExcept (fun l => Json.arr (l.map encDimArray).toArray) (Lib.broadcastArrays as))]
     | "align_dims" => pure [("lib", encExcept (fun l => Json.arr (l.map encDimArray).toArray) (Lib.alignDims as))]
     | f => throw s!"unknown multi fn {f}"
+  | "binop" => do
+    -- a op b for two DimArrays; or DimArray with a scalar / ndarray operand
+    let as ← arrays req
+    match (← str (← fld req "form")) with
+    | "arrays" =>
+      match as with
+      | [a, b] =>
+        let r := Lib.operation Cell.nan Cell.op a b
+        pure [("lib", encExcept (fun (x : DimArray Cell × Kind × Kind) => encDimArray x.1) r),
+              ("okinds", match r with | .ok x => Json.arr #[encKind x.2.1, encKind x.2.2] | .error _ => Json.null)]
+      | _ => throw "binop needs two arrays"
+    | "nd" =>
+      let a ← match as with | a :: _ => pure a | [] => throw "no array"
+      let shape ← listOf nat (← fld req "ndshape")
+      let flip ← bool (fldD req "flip" (Json.bool false))
+      let nd : NDArr Cell := { shape := shape, get := fun i => Cell.rhs (ravel shape i) }
+      pure [("lib", encExcept encDimArray (Lib.operationNd Cell.op a nd flip))]
+    | f => throw s!"bad binop form {f}"
+  | "stack" => do
+    let as ← arrays req
+    let ax ← optOf str (fldD req "axis" Json.null)
+    let keys ← listOf label (← fld req "keys")
+    let kk ← kind (fldD req "keykind" (Json.str "i"))
+    let al ← bool (fldD req "align" (Json.bool false))
+    let so ← bool (fldD req "sort" (Json.bool false))
+    pure [("lib", encExcept encDimArray (Lib.stack Cell.nan as ax keys kk al so))]
+  | "concatenate" => do
+    let as ← arrays req
+    let ax ← dimKey (← fld req "axis")
+    let al ← bool (fldD req "align" (Json.bool false))
+    let so ← bool (fldD req "sort" (Json.bool false))
+    pure [("lib", encExcept encDimArray (Lib.concatenate Cell.nan as ax al so))]
   | "union" => do
     let a ← axis (← fld req "a")
     let b ← axis (← fld req "b")
